@@ -59,12 +59,24 @@ Seeded change missed before `rerun` existed, now caught (witnesses + generated c
 catalog answers {1} | {1} instead of {1} | {4 5}, object CHANGED):
   M19 _get_value resolves the Names of a list IN PLACE (value[i] = resolved; return value), so a retained query
       object keeps the first execution's bindings                                          caught (rerun spy/real, opt 0/1)
+Seeded change C10_F (process_Call reads only the LAST component of a dotted callee: `a in x.any([1, 2])`,
+`a not in builtins.all([1])`, `a in x.y.any([1])` accepted) was missed by token-level mutation; the AST-level near
+misses (near_miss: one node replaced by a neighbouring construct of the expression grammar, printed by ast.unparse)
+and the fixed call-shape product (callee shape x argument shape x context, extra) catch it.  Further mutations of the
+same class (accepting a neighbour of the grammar), each VIOLATION on quick seed 0 (M20-M22 were also caught by the
+token-level mutations alone, M23 was missed by them):
+  M20 process_Starred returns its child (`a in any(*[1, 2])`, `a == [*x]` accepted)          caught (parse)
+  M21 process_Invert = process_Not (`~(a == 1)` accepted)                                   caught (parse)
+  M22 process_Subscript returns the value (`a[0] == 1` accepted as `a == 1`)                caught (parse)
+  M23 keyword arguments of any()/all() ignored (`a in any([1], x=2)` accepted)              caught (parse)
 """
 import ast
+import copy
 import io
 import json
 import math
 import random
+import re
 import sys
 import tokenize
 import warnings
@@ -1212,6 +1224,315 @@ def mutate(rng, src):
     return sep.join(toks)
 
 
+# ---------------------------------------------------------------------------- near misses built on the AST
+# A spelling is parsed, one or two nodes are replaced by a neighbouring construct of Python's expression grammar
+# (everything ast.parse accepts around the language), and the tree is printed again with ast.unparse.  The text
+# stays syntactically valid, so the walk itself - not the tokenizer - has to reject it.
+class _Fill(ast.NodeTransformer):
+    def __init__(self, holes):
+        self.holes = holes
+
+    def visit_Name(self, node):
+        if node.id in self.holes:
+            return copy.deepcopy(self.holes[node.id])
+        return node
+
+
+def tpl(s, **holes):
+    """expression template: every Name called like a hole is replaced by (a copy of) that node"""
+    return _Fill(holes).visit(ast.parse(s, mode="eval").body)
+
+
+# callee shapes around `any` / `all` (F = the function's own name)
+CALLEE_TPL = ["x.F", "a.F", "k.F", "builtins.F", "tags.F", "x.y.F", "x.y.z.F", "any.F", "all.F", "F.F", "F.x", "F.x.F",
+              "x().F", "(1).F", "'s'.F", "x[0].F", "[].F", "F[0]", "F()", "F(x)", "(lambda: F)", "(lambda v: F(v))",
+              "(F if x else F)", "(F or F)", "F.__call__", "(F, F)", "[F][0]", "-F", "F @ x", "(f := F)", "(await F)",
+              "x.F.y", "F.real"]
+NEAR_FUNCS = ["Any", "ANY", "any_", "_any", "some", "none", "all_", "All", "notany", "len", "set", "list", "sorted",
+              "foo", "anyall", "a", "k", "x", "any1", "аny"]          # the last one starts with a Cyrillic letter
+CALL_ARGS = ["F()", "F(V, V)", "F(V, 1)", "F(values=V)", "F(V, x=1)", "F(x=1)", "F(*V)", "F(*x)", "F(V, *x)", "F(**x)",
+             "F(V, **x)", "F(*x, **y)", "F(V,)", "F(*V, *V)", "F(v for v in V)", "F(V)(V)", "F(F(V))", "F(V).x", "F(V)[0]"]
+NAME_TPL = ["H.q", "H.q.r", "H.any", "H.all", "H.real.imag", "H[0]", "H[0:1]", "H[x]", "H['q']", "H()", "H(1)", "-H", "+H",
+            "~H", "(H,)", "[H]", "(H if x else H)", "(lambda: H)", "(h := H)", "H @ H", "H + 1", "(await H)", "H.q()",
+            "(H or H)", "f'{H}'", "(not H)"]
+OTHER_NAMES = ["zz", "None", "True", "__debug__", "b.q", "a.b", "A", "any", "all", "x.y.z", "x", "y.x"]
+VALUE_TPL = ["{H}", "{H: H}", "{1: H}", "{}", "[H for i in x]", "[i for i in H]", "{H for i in x}", "{i: H for i in x}",
+             "(H for i in x)", "[i for i in x if H]", "[i async for i in H]", "(lambda: H)", "(lambda x, *y, z=1, **w: H)",
+             "(H if x else y)", "(x if H else y)", "(x if y else H)", "(v := H)", "f'{H}'", "f'a{H!r:>{x}}b'", "f''",
+             "H[0]", "H[0:1]", "H[::2]", "H[0, 1]", "x[H]", "[*H]", "(*H,)", "[H, *x]", "{**H}", "(await H)", "(yield H)",
+             "(yield)", "(yield from H)", "H + 1", "1 - H", "H ** 2", "H @ x", "H % 2", "H // 2", "H / 2", "H << 1",
+             "H >> 1", "H ^ 1", "H & 1", "H | 1", "~H", "not H", "- H", "+ H", "- - H", "H < 2", "H is None",
+             "H is not None", "H in x", "H not in x", "H == H", "(H and 1)", "(H or x)", "int(H)", "x.y(H)", "H.real",
+             "H.x.y", "H()", "(H, x.y.z)", "[x.y, H]", "[[H]]", "(H,)", "[H]", "((H, H), [H])", "any(H)", "all([H])",
+             "x.any(H)", "b'x' if H else u'y'", "...", "1_0", "0x1f", "1e999", "-1j", "None", "x.y", "x . y", "__debug__"]
+QUERY_TPL = ["(lambda: H)", "(H if x else y)", "(H if H else H)", "(x if H else H)", "(v := H)", "H[0]", "H.x", "H()",
+             "(await H)", "(yield H)", "(H,)", "[H]", "{H}", "[*H]", "~H", "-H", "+H", "not H", "not not H", "H == 1",
+             "a == H", "a != H", "H in a", "a in H", "H in any([1])", "a in any(H)", "a in any([H])", "a not in all(H)",
+             "H < a < 2", "1 < H < 2", "1 < a < H", "H is None", "H is not H", "H + H", "H ^ H", "H - H", "H @ H",
+             "H and 1", "x or H", "H and x.y", "H or None", "H and any([1])", "H & 1", "1 | H", "H & x", "H | (a, 1)",
+             "[H for i in x]", "f'{H}'", "any(H)", "x.any(H)", "H < H", "H == H", "H if a == 1 else H", "H and not 1",
+             "(H) & (not 1)", "H or a", "a and H", "H & a", "H | a.b"]
+BINOPS = ["+", "-", "*", "@", "/", "//", "%", "**", "<<", ">>", "^", "&", "|"]
+CMP_SRC = ["==", "!=", "<", "<=", ">", ">=", "is", "is not", "in", "not in"]
+CMPNODE = {"==": ast.Eq, "!=": ast.NotEq, "<": ast.Lt, "<=": ast.LtE, ">": ast.Gt, ">=": ast.GtE, "is": ast.Is,
+           "is not": ast.IsNot, "in": ast.In, "not in": ast.NotIn}
+UNNODE = [ast.Invert, ast.Not, ast.UAdd, ast.USub]
+
+
+def _binop(op, l, r):
+    return tpl("L %s R" % op, L=l, R=r)
+
+
+def nm_call(rng, n):
+    fn = n.func.id if isinstance(n.func, ast.Name) else rng.choice(["any", "all"])
+    arg = n.args[0] if n.args else ast.List(elts=[ast.Constant(1)], ctx=ast.Load())
+    r = rng.random()
+    out = copy.deepcopy(n)
+    if r < 0.45:
+        out.func = tpl(rng.choice(CALLEE_TPL).replace("F", fn))
+    elif r < 0.75:
+        out = tpl(rng.choice(CALL_ARGS).replace("F", "FN__").replace("V", "VAL__"), FN__=n.func, VAL__=arg)
+    elif r < 0.88:
+        out.func = ast.Name(rng.choice(NEAR_FUNCS), ast.Load())
+    else:
+        out = tpl(rng.choice(CALL_ARGS).replace("F", "FN__").replace("V", "VAL__"),
+                  FN__=tpl(rng.choice(CALLEE_TPL).replace("F", fn)), VAL__=arg)
+    return out
+
+
+def nm_name(rng, n):
+    if rng.random() < 0.25:
+        return ast.parse(rng.choice(OTHER_NAMES), mode="eval").body
+    return tpl(rng.choice(NAME_TPL), H=n)
+
+
+def nm_compare(rng, n):
+    out = copy.deepcopy(n)
+    r = rng.random()
+    if r < 0.35:
+        out.ops[rng.randrange(len(out.ops))] = CMPNODE[rng.choice(CMP_SRC)]()
+    elif r < 0.6:
+        extra = rng.choice([ast.Constant(rng.choice([0, 1, 2, "s", None])), ast.Name(rng.choice(["a", "b", "x"]), ast.Load()),
+                            copy.deepcopy(out.comparators[-1]), copy.deepcopy(out.left)])
+        if rng.random() < 0.6:
+            out.ops.append(CMPNODE[rng.choice(CMP_SRC)]())
+            out.comparators.append(extra)
+        else:
+            out.ops.insert(0, CMPNODE[rng.choice(CMP_SRC)]())
+            out.comparators.insert(0, out.left)
+            out.left = extra
+    elif r < 0.75:
+        out.left, out.comparators[0] = out.comparators[0], out.left
+    elif r < 0.9:
+        ops = rng.choice([[">", ">"], [">=", ">"], ["<", ">"], [">", "<="], ["==", "<"], ["<", "!="], ["in", "<"],
+                          ["<", "in"], ["is", "is"], ["<", "<", "<"], ["<=", "<", "<=", "<"]])
+        vals = [out.left] + out.comparators
+        while len(vals) < len(ops) + 1:
+            vals.append(copy.deepcopy(rng.choice(vals)))
+        out.left, out.comparators, out.ops = vals[0], vals[1:len(ops) + 1], [CMPNODE[o]() for o in ops]
+    else:
+        out.ops = [CMPNODE[rng.choice(CMP_SRC)]() for _ in out.ops]
+    return out
+
+
+def nm_boolop(rng, n):
+    r = rng.random()
+    vals = n.values
+    if r < 0.35:
+        op = rng.choice(BINOPS)
+        out = vals[0]
+        for v in vals[1:]:
+            out = _binop(op, out, v)
+        return out
+    if r < 0.45:
+        return tpl("A if B else C", A=vals[0], B=vals[1], C=vals[-1])
+    if r < 0.6:
+        return ast.Compare(left=copy.deepcopy(vals[0]), ops=[CMPNODE[rng.choice(CMP_SRC)]() for _ in vals[1:]],
+                           comparators=[copy.deepcopy(v) for v in vals[1:]])
+    out = copy.deepcopy(n)
+    if r < 0.9:
+        extra = ast.parse(rng.choice(["1", "x", "x.y", "None", "any([1])", "a.any([1])", "[a == 1]", "(a == 1,)", "not 1",
+                                      "a", "''", "a == 1 if x else b == 2", "lambda: a == 1", "a < 1 < 2", "-1",
+                                      "a.b == 1", "a() == 1", "a[0] == 1", "a == 1 is True"]), mode="eval").body
+        out.values.insert(rng.randrange(len(out.values) + 1), extra)
+    else:
+        out.op = ast.Or() if isinstance(out.op, ast.And) else ast.And()
+    return out
+
+
+def nm_binop(rng, n):
+    r = rng.random()
+    if r < 0.6:
+        return _binop(rng.choice(BINOPS), n.left, n.right)
+    if r < 0.8:
+        side = ast.parse(rng.choice(["1", "x", "a", "any([1])", "[a == 1]", "not 1", "None", "x.y"]), mode="eval").body
+        return _binop("&" if isinstance(n.op, ast.BitAnd) else "|", *((side, n.right) if rng.random() < 0.5 else (n.left, side)))
+    return tpl(rng.choice(["L and R", "L or R", "L if R else L", "L < R", "(L, R)"]), L=n.left, R=n.right)
+
+
+def nm_unary(rng, n):
+    out = copy.deepcopy(n)
+    r = rng.random()
+    if r < 0.5:
+        out.op = rng.choice(UNNODE)()
+    elif r < 0.8:
+        out = ast.UnaryOp(op=rng.choice(UNNODE)(), operand=out)
+    else:
+        out.operand = tpl(rng.choice(VALUE_TPL), H=out.operand)
+    return out
+
+
+def nm_value(rng, n):
+    if isinstance(n, (ast.List, ast.Tuple)) and rng.random() < 0.3:
+        elts = [copy.deepcopy(e) for e in n.elts]
+        r = rng.random()
+        if r < 0.3:
+            return ast.Set(elts=elts or [ast.Constant(1)])
+        if r < 0.6 and elts:
+            i = rng.randrange(len(elts))
+            elts[i] = ast.Starred(value=elts[i], ctx=ast.Load())
+        else:
+            elts.insert(rng.randrange(len(elts) + 1), tpl(rng.choice(VALUE_TPL), H=ast.Constant(1)))
+        return type(n)(elts=elts, ctx=ast.Load())
+    return tpl(rng.choice(VALUE_TPL), H=n)
+
+
+def nm_query(rng, n):
+    return tpl(rng.choice(QUERY_TPL), H=n)
+
+
+def _slots(tree):
+    out = []
+    for p in ast.walk(tree):
+        for f, v in ast.iter_fields(p):
+            if isinstance(v, ast.expr):
+                out.append((p, f, None, v))
+            elif isinstance(v, list):
+                for i, x in enumerate(v):
+                    if isinstance(x, ast.expr):
+                        out.append((p, f, i, x))
+    return out
+
+
+def _kinds(p, f, n):
+    if isinstance(n, ast.Call):
+        return ["call", "call", "call", "value"]
+    if isinstance(n, (ast.Name, ast.Attribute)):
+        if isinstance(p, ast.Attribute) or (isinstance(p, ast.Call) and f == "func"):
+            return []                                   # inner part of a dotted name / a callee: handled from above
+        return ["name"]
+    if isinstance(n, ast.Compare):
+        return ["compare", "query"]
+    if isinstance(n, ast.BoolOp):
+        return ["boolop", "query"]
+    if isinstance(n, ast.BinOp):
+        return ["binop", "query"]
+    if isinstance(n, ast.UnaryOp):
+        return ["unary"] + (["query"] if isinstance(n.op, ast.Not) else ["value"])
+    if isinstance(n, (ast.Constant, ast.List, ast.Tuple)):
+        return ["value"]
+    return []
+
+
+NM = {"call": nm_call, "name": nm_name, "compare": nm_compare, "boolop": nm_boolop, "binop": nm_binop,
+      "unary": nm_unary, "value": nm_value, "query": nm_query}
+
+
+def near_miss(rng, src, kind=None):
+    """src with 1-2 nodes replaced by neighbouring constructs; None when src is not an expression"""
+    try:
+        tree = ast.parse(src.strip(), mode="eval")
+    except Exception:
+        return None
+    for _ in range(rng.choice([1, 1, 1, 2])):
+        bykind = {}
+        for p, f, i, n in _slots(tree):
+            for k in _kinds(p, f, n):
+                bykind.setdefault(k, []).append((p, f, i, n))
+        if not bykind:
+            break
+        k = kind if kind in bykind else rng.choice(sorted(bykind))
+        kind = None
+        p, f, i, n = rng.choice(bykind[k])
+        try:
+            new = NM[k](rng, n)
+        except SyntaxError:
+            continue
+        if i is None:
+            setattr(p, f, new)
+        else:
+            getattr(p, f)[i] = new
+    try:
+        return ast.unparse(ast.fix_missing_locations(tree))
+    except Exception:
+        return None
+
+
+def nm_features(src):
+    """which neighbouring constructs a source string contains (measured on the real AST)"""
+    try:
+        tree = ast.parse(src)
+    except Exception:
+        return []
+    f = set()
+    for n in ast.walk(tree):
+        t = type(n).__name__
+        if t == "Call":
+            fn = n.func
+            if isinstance(fn, ast.Attribute):
+                last = fn.attr in ("any", "all")
+                depth = 0
+                while isinstance(fn, ast.Attribute):
+                    fn, depth = fn.value, depth + 1
+                f.add("nm:callee-dotted%s%s%s" % ("-ending-any/all" if last else "", "-depth>=2" if depth >= 2 else "",
+                                                  "" if isinstance(fn, ast.Name) else "-on-nonname"))
+            elif not isinstance(fn, ast.Name):
+                f.add("nm:callee-" + type(fn).__name__)
+            elif fn.id not in ("any", "all"):
+                f.add("nm:callee-other-name")
+            if n.keywords:
+                f.add("nm:call-keyword" if any(k.arg for k in n.keywords) else "nm:call-**kwargs")
+            if any(isinstance(a, ast.Starred) for a in n.args):
+                f.add("nm:call-starred-arg")
+            if isinstance(fn, ast.Name) and fn.id in ("any", "all") and not n.keywords and len(n.args) != 1:
+                f.add("nm:any/all-%d-args" % min(len(n.args), 2))
+        elif t == "Compare":
+            if len(n.ops) >= 3:
+                f.add("nm:compare-chain>=3")
+            if any(isinstance(o, (ast.Is, ast.IsNot)) for o in n.ops):
+                f.add("nm:compare-is")
+            if len(n.ops) == 2 and not all(isinstance(o, (ast.Lt, ast.LtE)) for o in n.ops):
+                f.add("nm:range-with-other-ops")
+            for side in [n.left] + n.comparators:
+                if isinstance(side, ast.Attribute) and isinstance(side.value, ast.Attribute):
+                    f.add("nm:chained-attribute-operand")
+        elif t == "BinOp" and not isinstance(n.op, (ast.BitAnd, ast.BitOr)):
+            f.add("nm:binop-" + type(n.op).__name__)
+        elif t == "UnaryOp" and isinstance(n.op, ast.Invert):
+            f.add("nm:unary-invert")
+        elif t in ("Subscript", "Lambda", "IfExp", "NamedExpr", "Starred", "Set", "Dict", "JoinedStr", "Await", "Yield",
+                   "YieldFrom", "ListComp", "SetComp", "DictComp", "GeneratorExp", "Slice"):
+            f.add("nm:" + t)
+    return sorted(f)
+
+
+def call_shape_product():
+    """every callee shape x argument shape x context around any()/all(): a fixed, exhaustive neighbourhood of
+    process_Call (about 2300 strings); all of them go through `parse`"""
+    out = []
+    ctxs = ["a in %s", "a not in %s", "%s", "a == %s", "%s in a", "not %s", "k in %s and a == 1", "x.y in %s"]
+    for fn in ("any", "all"):
+        callees = ["F"] + CALLEE_TPL + NEAR_FUNCS[:6]
+        for ci, cal in enumerate(callees):
+            cal = cal.replace("F", fn)
+            for ai, args in enumerate(["([1, 2])", "()", "([1], [2])", "(values=[1])", "(*[1])", "(**x)", "([1], x=1)",
+                                       "((x, 'k1'))", "(x)"]):
+                for xi, ctx in enumerate(ctxs):
+                    if (ci + ai + xi) % 3 == 0 or ai == 0:      # all contexts for the one-argument call, a third else
+                        out.append(ctx % ((cal if re.fullmatch(r"[\w.]+", cal) else "(" + cal + ")") + args))
+    return out
+
+
 def flat_w(rng, depth, allow_not):
     """object tokens of a constructed (flat) query tree, as nested python lists: for qeq"""
     r = rng.random()
@@ -1353,6 +1674,18 @@ def gen(rng, tier, idx):
             cmds.append(["parse", hx(m)])
             if rng.random() < 0.25:
                 cmds.append(["exec"] + names + [hx(m)])
+    # near misses on the AST: a neighbouring construct of Python's expression grammar in place of one node of the
+    # spelling (or of a fresh small type-correct spelling, where nothing else can be the reason for a rejection)
+    for _ in range(rng.choice([2, 3, 3, 4])):
+        base_src = src if rng.random() < 0.6 else spell(gen_sx(rng, rng.choice([0, 0, 1]), True), rng)
+        if rng.random() < 0.25:
+            base_src = spell(("cmp", rng.choice(["any", "notany", "all", "notall"]), [rng.choice(["a", "b", "k"])],
+                              gen_typed_sv(rng, "keyword", True)), rng)
+        m = near_miss(rng, base_src)
+        if m:
+            cmds.append(["parse", hx(m)])
+            if rng.random() < 0.25:
+                cmds.append(["exec"] + names + [hx(m)])
     for _ in range(2):
         a = flat_w(rng, rng.choice([0, 1, 2]), rng.random() < 0.25)
         b = a if rng.random() < 0.15 else perturb(rng, a)
@@ -1437,6 +1770,10 @@ def features(case, outs):
                         f.append("literal:" + t)
             else:
                 f.append("parse-%s:%s" % (kind, o))
+            if kind == "mutated":
+                for k in nm_features(unhx(str(c[1]))):
+                    f.append(k)
+                    f.append(k + (":accepted" if o.startswith("ok") else ":rejected"))
         elif op == "rt":
             f.append("rt:" + o.split(" differ")[0][:20])
         elif op == "exec":
@@ -1600,6 +1937,18 @@ def extra(hyp, tier, seed):
                              "case": case, "commands": core.case_lines(case),
                              "explanation": "the docstring of %s documents the spelling %r, which parses to %s"
                                             % (cname, e, got)}, ""))
+    # the fixed neighbourhood of process_Call
+    shapes = call_shape_product()
+    for i in range(0, len(shapes), 60):
+        case = make_case([["parse", hx(x)] for x in shapes[i:i + 60]])
+        iouts, outs = core.evaluate(sys.modules[__name__], hyp, case)
+        ndoc += len(case["cmds"])
+        for o in core.bad_outcomes(outs):
+            if len(docfails) < 3:
+                docfails.append(make_case([case["cmds"][o.idx]]))
+        for c, o in zip(case["cmds"], iouts):
+            k = "call-shape:" + ("accepted" if o.startswith("ok") else o)
+            docfeats[k] = docfeats.get(k, 0) + 1
     maxlen = 4 if tier == "quick" else 5
     alpha = ALPHABET[:13] + ["&", "-"] if tier == "quick" else ALPHABET[:18]
     srcs = []
@@ -1631,8 +1980,21 @@ RULE = ("each case = one generated spelling s (12 comparators, ranges, and/or/no
         "different names on spy indexes and the real catalog; 60% of the cases add a spelling with >= 2 distinct Names in "
         "one comparator: a == x or a == y, a != x and a != y, any/all of lists/tuples/nested lists, ranges), "
         "2-4 token-level mutations (delete/duplicate/swap/replace/insert) of the string through the real "
-        "ast.parse and both walks, 2 qeq pairs (tree vs perturbed copy incl. Python-equal constants of other types), "
-        "1 subst; extra: the 16 spellings documented in the class docstrings parse to the documenting class; every "
+        "ast.parse and both walks, 2-4 near misses built on the AST (one or two nodes of the spelling, or of a fresh "
+        "small type-correct spelling, replaced by a neighbouring construct of Python's expression grammar and "
+        "printed by ast.unparse - the text stays syntactically valid, the walk has to reject it: callee shapes "
+        "around any/all (x.any, builtins.all, x.y.any, any.x, any(), any[0], (lambda: any), ...), keyword / ** / "
+        "starred / 0 / 2 arguments, near-miss function names, index names extended to attribute chains, subscripts, "
+        "calls, operators (is / is not, chains of 3+, ranges with > >= == in), BoolOp -> arithmetic or bit BinOp / "
+        "IfExp / Compare, other unary operators, values and query nodes replaced by or wrapped in Set, Dict, "
+        "comprehensions, lambda, IfExp, walrus, f-string, subscript, slice, starred, await, yield, arithmetic; "
+        "measured quick seed 0, of 48 166 mutated parse commands: dotted callee ending in any/all 561 (151 of depth "
+        ">= 2, 258 on a non-name; all rejected), keyword 208, ** 214, starred argument 384, any/all with 0 / 2 "
+        "arguments 183 / 216, other callee name 1181, Subscript 1487, Lambda 645, IfExp 1283, comprehensions 756, "
+        "Invert 687, arithmetic/shift/xor BinOp 3051, is/is not 2006, chains of 3+ 441, range with other operators "
+        "3003, chained-attribute operand 1043), 2 qeq pairs (tree vs perturbed copy incl. Python-equal constants of other types), "
+        "1 subst; extra: the 16 spellings documented in the class docstrings parse to the documenting class; the "
+        "call-shape product (40 callee shapes x 9 argument shapes x 8 contexts around any/all, 2346 strings); every "
         "string of <= 4 (thorough 5) tokens over a 15 (18) token alphabet; non-trivial = the case has an accepted "
         "And/Or tree and a rejected string")
 LEVEL_TEXT = ("Lean 4 theorems for all ASTs / all spellings / all trees / all names mappings: the walk of the AST of "
